@@ -47,6 +47,8 @@ class Session:
         socks, sockc = LoopSocket(), LoopSocket()
         sockc.link(socks)
         self.tc, self.ts = Transport(sockc), Transport(socks)
+        for t in (self.tc, self.ts):  # generous: a loaded machine must not turn into a failed handshake
+            t.banner_timeout = t.handshake_timeout = t.auth_timeout = 300
         self.ts.add_server_key(RSAKey.from_private_key_file(os.path.join(REPO, "tests", "_support", "rsa.key")))
         self.ts.set_subsystem_handler("sftp", RecordingSFTPServer, si_class, *si_args)
         ev = threading.Event()
@@ -259,15 +261,27 @@ class PolicyFile:
 
 
 def make_mem_si(files):
-    """SFTPServerInterface serving `files`: {name: (bytes, policy | None)} read-only, handles are plain SFTPHandle
-    objects (default read() on `readfile`) with a stat()."""
+    """SFTPServerInterface serving `files` read-only: {name: (bytes, policy | None)} or
+    {name: (bytes, policy | None, fault | None, stat_code | None)} where fault = (T, code) makes read(offset >= T)
+    return the SFTP error code, and stat_code makes the handle's stat() return that code.  Handles are plain
+    SFTPHandle objects (the default read() on `readfile`)."""
     from paramiko import SFTPAttributes, SFTPHandle, SFTPServerInterface, SFTP_NO_SUCH_FILE
 
     class MemHandle(SFTPHandle):
+        fault = None
+        stat_code = None
+
         def stat(self):
+            if self.stat_code is not None:
+                return self.stat_code
             a = SFTPAttributes()
             a.st_size = len(self.readfile.content)
             return a
+
+        def read(self, offset, length):
+            if self.fault is not None and offset >= self.fault[0]:
+                return self.fault[1]
+            return SFTPHandle.read(self, offset, length)
 
     class MemSI(SFTPServerInterface):
         def _get(self, path):
@@ -279,6 +293,8 @@ def make_mem_si(files):
                 return SFTP_NO_SUCH_FILE
             h = MemHandle(flags)
             h.readfile = PolicyFile(ent[0], ent[1])
+            if len(ent) > 2:
+                h.fault, h.stat_code = ent[2], ent[3]
             return h
 
         def stat(self, path):
